@@ -71,6 +71,15 @@ def lib_script(sc, fault=None):
         return "\n".join(L) + "\n" + "\n".join(out) + "iocounts\n"
     if k == "read":
         return "\n".join(L) + "\n" + gen.reader_script("f.zck", sizes=sc["sizes"]) + "iocounts\n"
+    if k == "read-retry":
+        # a reader that clears a failed call's error and calls again; whatever that achieves, reads that all succeed down to the end of
+        # data followed by a successful close must have delivered the file's content
+        L += ["fopen 1 f.zck r input", "create 1", "init_read 1 1", "readretry 1 3 %s" % " ".join(str(x) for x in sc["sizes"]), "close 1", "iocounts"]
+        return "\n".join(L) + "\n"
+    if k == "open-steps":
+        # the step-by-step way of opening: each step's verdict is its own
+        L += ["fopen 1 f.zck r input", "create 1", "init_adv_read 1 1", "read_lead 1", "read_header 1", "iocounts"]
+        return "\n".join(L) + "\n"
     if k in ("vc", "vd", "fv"):
         L += ["fopen 1 f.zck r input", "create 1", "init_read 1 1", "%s 1" % k, "flags 1", "iocounts"]
     elif k == "chunkdata":
@@ -124,6 +133,20 @@ def judge_lib(sc, r, cdir, fault):
         ok = r.first(op="init_read") and r.first(op="init_read")["rc"] == 1 and reads and all(e["rc"] >= 0 for e in reads) and reads[-1]["rc"] == 0 and cl and cl["rc"] == 1
         if ok and r.out != sc["_D"]:
             return ("c12:reader-success-with-different-content:" + tag, "read %d bytes, file holds %d" % (len(r.out), len(sc["_D"])))
+        return None
+    if k == "read-retry":
+        rr = r.first(op="readretry")
+        cl = r.first(op="close")
+        reads = r.ev(ev="read")
+        if rr and not rr["gave_up"] and reads and reads[-1]["rc"] == 0 and cl and cl["rc"] == 1 and r.out != sc["_D"]:
+            return ("c12:reader-success-with-different-content:" + tag, "after %d cleared error(s) the reads reached the end of data and zck_close reported success with %d bytes, the file holds %d"
+                    % (rr["errors"], len(r.out), len(sc["_D"])))
+        return None
+    if k == "open-steps":
+        for opn in ("read_lead", "read_header"):
+            e = r.first(op=opn)
+            if e and e["rc"] == 1 and fault[3] in (1, 3, 5) and not (len(fault) > 6 and fault[6]) and fired_during(r, opn):
+                return ("c12:open-step-success-despite-failed-%s:%s:%s" % (fault[1], opn, tag), "%s returned true although %s #%d on the file failed (%s) during the call" % (opn, fault[1], fault[2], KN[fault[3]]))
         return None
     if k in ("vc", "vd", "fv"):
         e = r.first(op=k)
@@ -414,6 +437,9 @@ class C12(core.Check):
             comp = "%d%s" % (comp, vtag)
             scs.append(dict(base, name="read-c%s" % comp, kind="read", sizes=[4096]))
             scs.append(dict(base, name="read1-c%s" % comp, kind="read", sizes=[1, 70000]))
+            scs.append(dict(base, name="read-retry-c%s" % comp, kind="read-retry", sizes=[4096]))
+            scs.append(dict(base, name="read-retry32k-c%s" % comp, kind="read-retry", sizes=[32768, 1000]))
+            scs.append(dict(base, name="open-steps-c%s" % comp, kind="open-steps"))
             for k in ("vc", "vd", "fv"):
                 scs.append(dict(base, name="%s-c%s" % (k, comp), kind=k))
             scs.append(dict(base, name="chunkdata-c%s" % comp, kind="chunkdata", chunks=[x % (len(pieces) + 1) for x in [2, 0, 4, 1, 2]]))
@@ -445,7 +471,7 @@ class C12(core.Check):
                             url="http://127.0.0.1:%d/~maxr=2/c12-c%s/tgt.zck" % (ctx["port"], comp)))
           if vtag == "-dup":
               # only the scenarios in which chunks are copied / scanned / read (the tools were enumerated on the first shape)
-              scs[nbefore:] = [x for x in scs[nbefore:] if x["kind"] in ("copy", "copy-retry", "update", "fv", "vc", "read")]
+              scs[nbefore:] = [x for x in scs[nbefore:] if x["kind"] in ("copy", "copy-retry", "update", "fv", "vc", "read", "read-retry")]
         scs.append({"name": "t-zck-default", "kind": "t-zck", "args": [], "D": core.b64(D)})
         scs.append({"name": "t-zck-split", "kind": "t-zck", "args": ["-m", "-s", "</text:p>"], "D": core.b64(D)})
         if not q:
